@@ -4,3 +4,6 @@ CONSTANT EqN = 0
 INIT Init
 NEXT Next
 INVARIANT RefusedCheap
+INVARIANT CyclePoly
+INVARIANT FibIdealPoly
+INVARIANT NoGuardIsPaths
